@@ -140,6 +140,53 @@ theorem floorSigma_spec {α : Type} [Field α] [LinearOrder α] [IsStrictOrdered
 example : floorSigma (1/100 : Rat) [3, 1, 0] = [3, 1, 1/100] := by
   norm_num [floorSigma]
 
+/-! ## `fit` through `leading_svd`: component count, floor, order -/
+
+/-- **what `fit` returns through `leading_svd` in the dense regime** (`min(n,p) < 5k`): at most `k`
+components, as many rows as singular values, every singular value at least the floor, and — when the
+solver lists its values largest first — non-increasing singular values. -/
+theorem fit_dense_components {α ε : Type} [Field α] [LinearOrder α] [IsStrictOrderedRing α]
+    [Transc α] (fl : α) (dense iter : List (List α) → Nat → Except ε (List α × List (List α)))
+    (k p : Nat) (w : Bool) (lay : Layout) (X : List (List α)) (m : Model α)
+    (hreg : min X.length p < 5 * k)
+    (hfit : fit fl (leadingSvd dense iter p) k w lay p X = .ok m) :
+    ∃ σ vt, dense (center X (colMeanL lay p X)) (min X.length p) = .ok (σ, vt) ∧
+      m.sigma.length ≤ k ∧
+      (vt.length = σ.length → m.embedding.length = m.sigma.length) ∧
+      (∀ s ∈ m.sigma, fl ≤ s) ∧
+      (σ.Pairwise (· ≥ ·) → m.sigma.Pairwise (· ≥ ·)) := by
+  unfold fit at hfit
+  split at hfit
+  · cases hfit
+  · have hlen : (center X (colMeanL lay p X)).length = X.length := by simp [center]
+    simp only [] at hfit
+    cases hd : dense (center X (colMeanL lay p X)) (min X.length p) with
+    | error e =>
+      have := (leadingSvd_spec dense iter p (center X (colMeanL lay p X)) k).2.1
+        (by rw [hlen]; exact hreg) e (by rw [hlen]; exact hd)
+      rw [this] at hfit
+      cases hfit
+    | ok r =>
+      obtain ⟨σ, vt⟩ := r
+      obtain ⟨h1, h2, h3, h4⟩ := (leadingSvd_spec dense iter p (center X (colMeanL lay p X)) k).1
+        (by rw [hlen]; exact hreg) σ vt (by rw [hlen]; exact hd)
+      rw [h1] at hfit
+      simp only [Except.ok.injEq] at hfit
+      subst hfit
+      refine ⟨σ, vt, rfl, ?_, ?_, ?_, ?_⟩
+      · simp [floorSigma]
+      · intro hl
+        have := h3 hl
+        simp only [List.length_take] at this
+        cases w <;> simp [floorSigma, whiten, this]
+      · exact (floorSigma_spec fl _).1
+      · intro hp; exact (floorSigma_spec fl _).2 (h4 hp)
+
+example : (fit (α := Rat) (ε := String) 0
+      (leadingSvd (fun _ _ => .ok ([3, 2], [[1, 0], [0, 1]])) (fun _ _ => .error "lobpcg") 2)
+      1 false .c 2 [[1, 0], [-1, 0], [0, 1]]).toOption.map (·.sigma) = some [3] := by
+  simp [fit, Pca.guard, leadingSvd, floorSigma, Except.toOption]
+
 /-! ## explained variance and its ratio -/
 
 /-- ratios are proportional to the explained variances (same factor `1 / Σ ev` for all) -/
